@@ -322,7 +322,8 @@ def mutation_table(algs):
     from saml2_tophat import BINDING_HTTP_REDIRECT
     ents = entities()
     out = []
-    relays = ['rs', 'a b&c=d', 'https://sp.example/return?next=%2Fhome', 'x%26Signature%3Dy', 'é€', '']
+    relays = ['rs', 'a b&c=d', 'https://sp.example/return?next=%2Fhome', 'x%26Signature%3Dy', 'é€', '',
+              "~user/-._", "*!'()", '+ +', '/?:@;,$']       # unreserved and sub-delimiter characters that URL encoders treat differently
     for a, is_resp in itertools.product(algs, (False, True)):
         for rs in relays:
             url = location(ents['e1'].apply_binding(BINDING_HTTP_REDIRECT, MSG if not is_resp else MSG.replace('AuthnRequest', 'Response'), DEST, rs,
